@@ -29,6 +29,7 @@ import Rooc.Proofs.LinC10
 import Rooc.Proofs.LinExamples
 import Rooc.Proofs.LinMain
 import Rooc.Proofs.LinCounter
+import Rooc.Proofs.LinBridgeCounter
 namespace Rooc.Props.C01
 open Rooc Rooc.Lin
 open Rooc.Lin.Gadget (B01 DomMax DomMin)
@@ -500,7 +501,7 @@ theorem c01_counterexample :
       linearizeWith m b d = .ok lm ∧ FragModel true m d ∧ DomRel m d ∧ ¬ BoxEnforced b d ∧
       ¬ (srcFeasible m ρ = true ↔
           ∃ ρ' : String → K, (∀ x, inScope d x → ρ' x = ρ x) ∧ linFeasible lm ρ' = true) :=
-  boxEnforced_needed (k := (1 / 2 : K)) (by norm_num) (by norm_num)
+  boxEnforced_needed (ty := .bool) (k := (1 / 2 : K)) (x0 := 1) (by simp [inDomain]) (by norm_num) (by norm_num)
 
 /-- **Counterexample for the definedness hypothesis** (`FragModel.cons … .defined`): `c: 0 * (x / 0) ≤ 1` is
 undefined at every assignment (the source is infeasible), but `simplify` folds it to the tautology `0 ≤ 1`,
@@ -523,5 +524,117 @@ theorem boxEnforced_check {b : BoundsMap (Ext K)} {d : List (DomVar (Ext K))}
   boxEnforced_of_entries h
 
 end StageCE
+
+/-! ## The bridge — C01 for the WHOLE pipeline `Compile.linearize m tol maxSteps`
+
+`Compile.linearize` (`Rooc/Compile.lean`) is `Linearizer::linearize`: normalise the constraints for bound
+inference → `BoundsAnalyzer::analyze` → `enforceable` → `apply_to_domain` → the work-list lowering.  The two
+side conditions of `c01_partial` are DISCHARGED here for the bounds map and the domain the pipeline computes:
+`DomRel` (the published domain keeps names/usage, is inside the declared ranges, and is satisfied by every
+source-feasible point — C07's soundness through C10's `normalize` on the fragment) and `BoxEnforced` (every
+point of the published domain lies in the box the rewrites prune with).
+
+Vocabulary (definitions in `Rooc/Proofs/LinBridge.lean`, `LinBridgeCounter.lean`):
+* `DeclOK d` — decidable well-formedness of the DECLARED domain: names distinct; `IntegerRange` ends within
+  `i32`; `Real`/`NonNegativeReal` ends not NaN; `NonNegativeReal(lo, _)` has `0 ≤ lo`; a declared variable that
+  is never used (usage mark 0) has a non-empty declared range.
+* `pipelineAnalyzer m tol n` — the analyzer state the pipeline computes (`analyze … |> enforceable`), `none` iff
+  normalisation runs out of fuel.
+* `IntRangesInBox an d` — for every `IntegerRange` variable with box `[l, u]` in `an` whose tolerant rounding
+  `[⌈l − tol⌉, ⌊u + tol⌋]` is non-empty, both rounded ends lie in `[l, u]`.  Decidable on the computed state.
+  It is what the integer rounding of `apply_to_domain` can break (`c01_int_tolerance_counterexample`); it holds
+  trivially when no `IntegerRange` variable is declared (`NoIntegerVars`). -/
+
+section Bridge
+variable [FloorRing K]
+open Rooc.BoundsProofs
+
+/-- **C01 for the whole pipeline, piecewise-linear models**, every tolerance `t ≥ 0`, every step limit:
+an assignment is source-feasible iff it extends, on the compiler's auxiliaries only, to a feasible point of the
+linear model that `Compile.linearize` returns.  No hypothesis about the bounds map or the published domain is
+left; `_partial`: the fragment (`FragModel`, as in `c01_partial`) and `IntRangesInBox` on the computed analyzer
+state (see `c01_int_tolerance_counterexample` for why). -/
+theorem c01_compile_partial {m : Model (Ext K)} {t : K} (ht : 0 ≤ t) {maxSteps : Nat} {lm : LinModel (Ext K)}
+    (h : Compile.linearize m (.fin t) maxSteps = .ok lm)
+    (hm : FragModel true m m.domain) (hok : DeclOK m.domain)
+    (hint : ∀ an, pipelineAnalyzer m (.fin t) maxSteps = some an → IntRangesInBox an m.domain)
+    (ρ : String → K) :
+    srcFeasible m ρ = true ↔
+      ∃ ρ' : String → K, (∀ x, inScope m.domain x → ρ' x = ρ x) ∧ linFeasible lm ρ' = true :=
+  compile_feasible_iff ht h hm hok hint ρ
+
+/-- the same without any hypothesis on computed data, for models that declare no `IntegerRange` variable
+(Boolean, `Real`, `NonNegativeReal` only): every tolerance `t ≥ 0`, every step limit. -/
+theorem c01_compile_noint_partial {m : Model (Ext K)} {t : K} (ht : 0 ≤ t) {maxSteps : Nat} {lm : LinModel (Ext K)}
+    (h : Compile.linearize m (.fin t) maxSteps = .ok lm)
+    (hm : FragModel true m m.domain) (hok : DeclOK m.domain) (hni : NoIntegerVars m.domain)
+    (ρ : String → K) :
+    srcFeasible m ρ = true ↔
+      ∃ ρ' : String → K, (∀ x, inScope m.domain x → ρ' x = ρ x) ∧ linFeasible lm ρ' = true :=
+  compile_feasible_iff ht h hm hok (fun an _ => intRangesInBox_of_noInt hni an) ρ
+
+/-- what the bridge discharges, stated on its own: for the analyzer state the pipeline computes, the published
+domain and the bounds map satisfy both side conditions of `c01_partial`. -/
+theorem compile_side_conditions {m : Model (Ext K)} {t : K} (ht : 0 ≤ t) (maxSteps : Nat)
+    (hm : FragModel true m m.domain) (hok : DeclOK m.domain) {an : Analyzer (Ext K)}
+    (han : pipelineAnalyzer m (.fin t) maxSteps = some an) (hint : IntRangesInBox an m.domain) :
+    DomRel m (an.applyToDomain m.domain) ∧
+    BoxEnforced (Compile.toLinBounds an.variableBounds) (an.applyToDomain m.domain) :=
+  pipeline_hyps ht maxSteps hm hok han hint
+
+/-- non-vacuity, every tolerance and every step limit: `min x s.t. x ≤ y` goes through the pipeline and satisfies
+every hypothesis of `c01_compile_noint_partial` (hence of `c01_compile_partial`). -/
+example (t : K) (n : Nat) : ∃ (m : Model (Ext K)) (lm : LinModel (Ext K)),
+    Compile.linearize m (.fin t) n = .ok lm ∧ FragModel true m m.domain ∧ DeclOK m.domain ∧
+      NoIntegerVars m.domain := by
+  obtain ⟨lm, h⟩ := exAffine_compile (K := K) (.fin t) n
+  obtain ⟨haff, hdef, _⟩ := exAffine_hyps (K := K)
+  refine ⟨exAffine, lm, h, ⟨FG_of_AG haff.obj, ?_, ?_⟩, exAffine_declOK, exAffine_noInt⟩
+  · intro ρ; exact ⟨ρ "x", by simp [exAffine, eval]⟩
+  · intro c hc
+    exact ⟨(haff.cons c hc).notAssert, FG_of_AG (haff.cons c hc).lhs, FG_of_AG (haff.cons c hc).rhs, hdef c hc⟩
+
+/-- non-vacuity with a REAL auxiliary through the pipeline (step limit 0, every tolerance):
+`min y s.t. abs{x} ≤ y`, `x ∈ [-1, 2]`. -/
+example (t : K) : ∃ (m : Model (Ext K)) (lm : LinModel (Ext K)),
+    Compile.linearize m (.fin t) 0 = .ok lm ∧ FragModel true m m.domain ∧ DeclOK m.domain ∧
+      NoIntegerVars m.domain := by
+  obtain ⟨lm, h⟩ := exAbs_compile (K := K) (.fin t)
+  exact ⟨exAbs, lm, h, exAbs_hyps.1, exAbs_declOK, exAbs_noInt⟩
+
+/-- **Counterexample for the excluded region** (`IntRangesInBox` dropped) — the integer-tolerance defect of
+`apply_to_domain`.  For every tolerance `0 < t < 1` and every `k ∈ [5 − t, 5)`: with the analyzer state
+`x ∈ [0, k]` (what bound inference derives from `max{x, k} ≤ k`, `x ∈ IntegerRange(0, 10)`), `apply_to_domain`
+publishes `IntegerRange(⌈0 − t⌉, ⌊k + t⌋) = IntegerRange(0, 5)`, while `linearize_extreme` prunes `x` against
+the box `[0, k]`: the model compiles to the single row `0 ≤ 0`, and `x = 5` is feasible for the linear model but
+not for the source (`5 > k`).  Observed on the real code (HEAD 947e0f0, `roocverif explore`) with
+`k = 4.9999999995`, `t = 1e-9`: the solver returns `n = 5`, the true optimum is `4`. -/
+theorem c01_int_tolerance_counterexample {k t : K} (h0 : 0 ≤ t) (h1 : t < 1) (h5 : 5 ≤ k + t) (hk0 : 0 < k)
+    (hk : k < 5) :
+    ∃ (m : Model (Ext K)) (lm : LinModel (Ext K)) (ρ : String → K),
+      m.domain = exIntDecl ∧
+      linearizeWith m (Compile.toLinBounds (exIntAn k t).variableBounds)
+        ((exIntAn k t).applyToDomain m.domain) = .ok lm ∧
+      ¬ IntRangesInBox (exIntAn k t) m.domain ∧
+      linFeasible lm ρ = true ∧ ¬ srcFeasible m ρ = true :=
+  intTolerance_defect h0 h1 h5 hk0 hk
+
+/-- the parameters of `c01_int_tolerance_counterexample` exist (e.g. `t = 1/2`, `k = 9/2`). -/
+example : ∃ k t : K, 0 ≤ t ∧ t < 1 ∧ 5 ≤ k + t ∧ 0 < k ∧ k < 5 :=
+  ⟨9 / 2, 1 / 2, by norm_num, by norm_num, by norm_num, by norm_num, by norm_num⟩
+
+/-- the same mechanism as an instance of `c01_partial`'s excluded region: the published domain
+`IntegerRange(0, 5)` with the box `[0, k]`, `4 < k < 5` — every hypothesis of `c01_partial` but `BoxEnforced`. -/
+theorem c01_int_box_counterexample :
+    ∃ (m : Model (Ext K)) (b : BoundsMap (Ext K)) (d : List (DomVar (Ext K))) (lm : LinModel (Ext K))
+      (ρ : String → K),
+      linearizeWith m b d = .ok lm ∧ FragModel true m d ∧ DomRel m d ∧ ¬ BoxEnforced b d ∧
+      ¬ (srcFeasible m ρ = true ↔
+          ∃ ρ' : String → K, (∀ x, inScope d x → ρ' x = ρ x) ∧ linFeasible lm ρ' = true) :=
+  boxEnforced_needed (ty := .int 0 5) (k := (9 / 2 : K)) (x0 := 5) (by
+      simp only [inDomain, Bool.and_eq_true, isIntK_iff, ef_le, ef_ofInt, decide_eq_true_eq]
+      exact ⟨⟨⟨5, by norm_num⟩, by norm_num⟩, by norm_num⟩) (by norm_num) (by norm_num)
+
+end Bridge
 
 end Rooc.Props.C01
